@@ -42,8 +42,9 @@ def main():
                 elif r.returncode == 2:
                     hits.append((p, "ANALYSIS-ERROR " + r.stdout.strip().splitlines()[0][:200]))
             own = meta["property"]
-            verdict = "CAUGHT" if any(h[0] == own for h in hits) else \
-                ("caught-by-other" if hits else "MISSED")
+            real = [h for h in hits if not h[1].startswith("ANALYSIS-ERROR")]
+            verdict = "CAUGHT" if any(h[0] == own for h in real) else \
+                ("caught-by-other" if real else ("REFUSED(exit2)" if hits else "MISSED"))
             rows.append((d, verdict, "; ".join(f"{p}: {m}" for p, m in hits)))
         finally:
             shutil.rmtree(tmp, ignore_errors=True)
